@@ -1,0 +1,179 @@
+//go:build verif
+
+package goja
+
+// Verification hooks: with the "verif" build tag the VM reports its control-state transitions (one event per
+// critical section, emitted after the state change) to VerifSink. The events are validated against the TLA+
+// specification of the VM's control state (trace validation). Nothing is recorded unless a sink is installed.
+
+import (
+	"bufio"
+	"fmt"
+	"os"
+	"strconv"
+	"sync"
+	"sync/atomic"
+	"unsafe"
+)
+
+// VerifSink receives one JSON object (without trailing newline) per event. It may be called from several
+// goroutines (one per Runtime) and must be installed before the runtimes are used.
+var VerifSink func(r *Runtime, line []byte)
+
+func (vm *vm) vtState(b []byte) []byte {
+	g := 0
+	if vm.stash == nil || vm.stash == &vm.r.global.stash {
+		g = 1
+	}
+	intr := 0
+	if atomic.LoadUint32(&vm.interrupted) != 0 {
+		intr = 1
+	}
+	b = append(b, `,"cs":`...)
+	b = strconv.AppendInt(b, int64(len(vm.callStack)), 10)
+	b = append(b, `,"ts":`...)
+	b = strconv.AppendInt(b, int64(len(vm.tryStack)), 10)
+	b = append(b, `,"is":`...)
+	b = strconv.AppendInt(b, int64(len(vm.iterStack)), 10)
+	b = append(b, `,"rs":`...)
+	b = strconv.AppendInt(b, int64(len(vm.refStack)), 10)
+	b = append(b, `,"sp":`...)
+	b = strconv.AppendInt(b, int64(vm.sp), 10)
+	b = append(b, `,"sb":`...)
+	b = strconv.AppendInt(b, int64(vm.sb), 10)
+	b = append(b, `,"gl":`...)
+	b = strconv.AppendInt(b, int64(g), 10)
+	b = append(b, `,"jobs":`...)
+	b = strconv.AppendInt(b, int64(len(vm.r.jobQueue)), 10)
+	b = append(b, `,"intr":`...)
+	b = strconv.AppendInt(b, int64(intr), 10)
+	return b
+}
+
+func (vm *vm) vt(ev, a string) {
+	if VerifSink == nil {
+		return
+	}
+	b := make([]byte, 0, 160)
+	b = append(b, `{"ev":"`...)
+	b = append(b, ev...)
+	b = append(b, `","a":"`...)
+	b = append(b, a...)
+	b = append(b, '"')
+	b = vm.vtState(b)
+	b = append(b, '}')
+	VerifSink(vm.r, b)
+}
+
+// vtAsync reports an event that may come from another goroutine (Interrupt / ClearInterrupt): it must not read
+// the VM's registers. In Interrupt it is emitted under interruptLock, after the flag store.
+func (vm *vm) vtAsync(ev string) {
+	if VerifSink == nil {
+		return
+	}
+	VerifSink(vm.r, []byte(`{"ev":"`+ev+`","a":"","async":1}`))
+}
+
+func (vm *vm) vtTryPush(catchPos, finallyPos int32) {
+	if VerifSink == nil {
+		return
+	}
+	kind := "region"
+	if catchPos == tryPanicMarker {
+		kind = "marker"
+	}
+	c, f := 0, 0
+	if catchPos >= 0 {
+		c = 1
+	}
+	if finallyPos >= 0 {
+		f = 1
+	}
+	b := make([]byte, 0, 180)
+	b = append(b, fmt.Sprintf(`{"ev":"TryPush","a":%q,"c":%d,"f":%d`, kind, c, f)...)
+	b = vm.vtState(b)
+	b = append(b, '}')
+	VerifSink(vm.r, b)
+}
+
+func (vm *vm) vtSeg(ev string, ts, is, rs, st int) {
+	if VerifSink == nil {
+		return
+	}
+	b := make([]byte, 0, 200)
+	b = append(b, fmt.Sprintf(`{"ev":%q,"a":"","sts":%d,"sis":%d,"srs":%d,"sst":%d`, ev, ts, is, rs, st)...)
+	b = vm.vtState(b)
+	b = append(b, '}')
+	VerifSink(vm.r, b)
+}
+
+// vtJob reports promise-job bookkeeping: Enqueue / JobStart / JobEnd / Settle / Track with an id.
+func (r *Runtime) vtJob(ev string, id uint64, a string) {
+	if VerifSink == nil {
+		return
+	}
+	b := make([]byte, 0, 200)
+	b = append(b, fmt.Sprintf(`{"ev":%q,"a":%q,"id":%d`, ev, a, id)...)
+	b = r.vm.vtState(b)
+	b = append(b, '}')
+	VerifSink(r, b)
+}
+
+// VERIF_TRACE=<dir>: every Runtime created by the process appends its events to <dir>/trace-<pid>.ndjson with a
+// runtime number ("rt"); used to record the repository's own test suite.
+var (
+	verifFileMu sync.Mutex
+	verifFile   *bufio.Writer
+)
+
+func init() {
+	dir := os.Getenv("VERIF_TRACE")
+	if dir == "" {
+		return
+	}
+	f, err := os.Create(fmt.Sprintf("%s/trace-%d.ndjson", dir, os.Getpid()))
+	if err != nil {
+		return
+	}
+	verifFile = bufio.NewWriterSize(f, 1<<16)
+	VerifSink = func(r *Runtime, line []byte) {
+		// the address identifies the runtime without keeping it alive; a later runtime reusing the address
+		// continues the event stream of a dead (hence idle) one, which is a legal behaviour
+		id := uintptr(unsafe.Pointer(r))
+		verifFileMu.Lock()
+		if verifFile.Available() < len(line)+32 {
+			verifFile.Flush() // whole lines only, so a killed process leaves a valid prefix
+		}
+		fmt.Fprintf(verifFile, `{"rt":%d,`, id)
+		verifFile.Write(line[1:])
+		verifFile.WriteByte('\n')
+		verifFileMu.Unlock()
+	}
+}
+
+func verifThrowClass(arg interface{}, ex *Exception) string {
+	if ex != nil {
+		return "catchable"
+	}
+	if asUncatchableException(arg) != nil {
+		return "uncatchable"
+	}
+	return "foreign"
+}
+
+func verifFinallyKind(exc bool, ret int32) string {
+	if exc {
+		return "exc"
+	}
+	if ret != -1 {
+		return "jump"
+	}
+	return "none"
+}
+
+func verifOutcome(err error) string {
+	if err != nil {
+		return "exception"
+	}
+	return "value"
+}
